@@ -84,12 +84,17 @@ type replicaProc struct {
 
 // startReplica starts another process running the same deployment as `e`
 func (e *testEnv) startReplica() (*replicaProc, error) {
+	return e.startReplicaRefresh(e.opts.Cookie.Refresh)
+}
+
+// startReplicaRefresh: the same deployment with another cookie-refresh (a rolling change of that option)
+func (e *testEnv) startReplicaRefresh(refresh time.Duration) (*replicaProc, error) {
 	var up string
 	for _, u := range e.ups {
 		up = u.srv.URL
 	}
 	rc := replicaCfg{Issuer: e.idp.url(), CookieName: e.opts.Cookie.Name, CookieSecret: e.opts.Cookie.Secret, UpstreamURL: up, ProxyPrefix: e.opts.ProxyPrefix, PKCE: e.opts.Providers[0].CodeChallengeMethod,
-		Refresh: e.opts.Cookie.Refresh, Expire: e.opts.Cookie.Expire}
+		Refresh: refresh, Expire: e.opts.Cookie.Expire}
 	if e.mr != nil {
 		rc.RedisAddr = e.mr.Addr()
 	}
